@@ -4,7 +4,7 @@ from __future__ import annotations
 import ast
 
 from sa.model import AnalysisError, calls_in, kwarg, FuncInfo
-from sa.paths import function_paths, end_kind, consistent
+from sa.paths import function_paths, end_kind, consistent, must_raise
 from sa.symbolic import Poly, to_poly
 from sa.util import U, Env, call_is, const_value, writes_of
 from rules import wiring
@@ -437,12 +437,8 @@ def run(ctx):
                       f"{c.name} does not hand its edges to BinningBase.__init__({want}=...)", init.where)
 
     def raises_when(fi, pred, exc="ValueError", when=True):
-        for path in function_paths(fi.node):
-            if end_kind(path) == "raise" and exc in U(path[-1][2]):
-                for s in path:
-                    if s[0] == "cond" and s[2] == when and pred(s[1]):
-                        return True
-        return False
+        n, off = must_raise(fi.node, pred, when=when, exc=exc)
+        return n >= 1 and not off
 
     def cmp_is(e, left, ops, right):
         return isinstance(e, ast.Compare) and len(e.ops) == 1 and U(e.left) == left and type(e.ops[0]) in ops and U(e.comparators[0]) == right
@@ -473,6 +469,8 @@ def run(ctx):
     ok_shape = raises_when(mba, lambda e: cmp_is(e, "bins.shape[1]", (ast.NotEq,), "2"))
     ok_dim = any(end_kind(p) == "raise" and ("bins.ndim == 1", False) in [(U(s[1]), s[2]) for s in p if s[0] == "cond"]
                  and ("bins.ndim == 2", False) in [(U(s[1]), s[2]) for s in p if s[0] == "cond"] for p in function_paths(mba.node))
+    n_mr, off_mr = must_raise(mba.node, lambda e: U(e) == "bins.ndim == 2", when=False)
+    ok_dim = ok_dim and n_mr >= 1 and not off_mr
     ctx.check(ok_shape and ok_dim, "C07.a", "make_bin_array:shape", "ndim not in (1,2) or second dimension != 2 -> ValueError",
               "wrongly shaped bin specifications are no longer refused", mba.where)
     ir = bu.functions["is_rising"]
